@@ -59,6 +59,10 @@ pub enum Stmt {
     /// `zzlib = uname` / `zzlib = array_join ${arr0} -`: a script-implemented command that calls another one; its
     /// output is not compared
     Lib(u8),
+    /// `goto :brk<id>`: leaves the enclosing for-in loop(s) of a function body for the label placed after the loop
+    Break(u32),
+    /// `:brk<id>` on a line of its own
+    Label(u32),
 }
 
 #[derive(Clone, Debug, PartialEq, Eq, Hash)]
@@ -83,6 +87,8 @@ pub const VARS: &[&str] = &["v", "w", "u", "x", "y", "q"];
 
 #[derive(Clone, Copy)]
 pub struct GenCfg {
+    /// function bodies may start with a for-in loop that is left by goto (a 'break') from inside a branch
+    pub breaks: bool,
     pub functions: bool,
     pub failures: bool,
     pub max_depth: usize,
@@ -388,7 +394,25 @@ pub fn gen_program(t: &mut Tape, cfg: GenCfg) -> Program {
             g.fns.push((scoped, arity));
             g.current_fn = Some(i);
             g.budget = 6 + cfg.max_stmts / 3;
-            let body = g.block_min(1, Some(arity), false, 2);
+            let mut body = g.block_min(1, Some(arity), false, 2);
+            if cfg.breaks && (arity > 0 || (!scoped && n_arrays > 0)) && g.t.chance(1, 3) {
+                // the only way to 'break': a goto from inside the loop to a label right after it. The call then ends by
+                // reaching the end of the body or by a return further down; a later call starts afresh all the same
+                let src = if arity > 0 && (scoped || n_arrays == 0 || g.t.flip()) { Expr::Var((1 + g.t.below(arity)).to_string()) } else { Expr::Var(format!("arr{}", g.t.below(n_arrays))) };
+                let v = g.t.pick(&["i", "j", "x"]).to_string();
+                let c = if g.t.flip() { Cond::Value(Expr::Var(v.clone())) } else { g.cond(Some(arity), false) };
+                let mut inner = vec![];
+                if g.t.flip() {
+                    inner.push(g.emit(Some(arity)));
+                }
+                inner.push(Stmt::Break(i as u32));
+                let mut lb = vec![g.emit(Some(arity)), Stmt::If(vec![(c, inner)], None)];
+                if g.t.flip() {
+                    lb.push(g.emit(Some(arity)));
+                }
+                body.insert(0, Stmt::ForIn(v, src, lb));
+                body.insert(1, Stmt::Label(i as u32));
+            }
             fns.push(FnDef { name: format!("f{}", i), scoped, arity, body });
         }
         g.current_fn = None;
@@ -648,6 +672,14 @@ impl<'a, 'b> Renderer<'a, 'b> {
                     }
                     self.line(depth, &l);
                 }
+                Stmt::Break(id) => {
+                    let l = format!("goto :brk{}", id);
+                    self.line(depth, &l);
+                }
+                Stmt::Label(id) => {
+                    let l = format!(":brk{}", id);
+                    self.line(depth, &l);
+                }
                 Stmt::Return(e) => {
                     let k = self.kw(Spell::RETURN);
                     let l = match e {
@@ -696,7 +728,7 @@ impl<'a, 'b> Renderer<'a, 'b> {
                 }
                 Stmt::ExitOnError(b) => {
                     // the state is the truthiness of the argument (one rule, C06): any spelling of it
-                    let v = if *b { *self.t.pick_ref(&["true", "true", "1", "yes", "TRUE", "on", "enabled"]) } else { *self.t.pick_ref(&["false", "false", "0", "no", "FALSE", "No"]) };
+                    let v = if *b { *self.t.pick_ref(&["true", "true", "1", "yes", "TRUE", "on", "enabled"]) } else { *self.t.pick_ref(&["false", "false", "0", "no", "FALSE", "No", "\"\"", "${never_defined_zz}"]) };
                     if v != "true" && v != "false" {
                         self.rs.exit_on_error_other_spelling = true;
                     }
@@ -786,6 +818,7 @@ pub enum Stop {
 enum Flow {
     Normal,
     Return(Option<String>),
+    Break(u32),
 }
 
 #[derive(Clone, Debug, PartialEq)]
@@ -1003,7 +1036,7 @@ impl<'p> Model<'p> {
             let flow = flow?;
             result = match flow {
                 Flow::Return(v) => v,
-                Flow::Normal => None,
+                Flow::Normal | Flow::Break(_) => None,
             };
             if let Some(o) = out {
                 match &result {
@@ -1042,7 +1075,7 @@ impl<'p> Model<'p> {
             let flow = flow?;
             result = match flow {
                 Flow::Return(v) => v,
-                Flow::Normal => None,
+                Flow::Normal | Flow::Break(_) => None,
             };
             if let Some(o) = out {
                 match &result {
@@ -1077,7 +1110,10 @@ impl<'p> Model<'p> {
         if *runs >= 3 && !stmts.is_empty() {
             self.classes.insert("same-block-executed-3-times");
         }
-        for s in stmts {
+        let mut at = 0;
+        while at < stmts.len() {
+            let s = &stmts[at];
+            at += 1;
             self.step()?;
             match s {
                 Stmt::Emit(id, args) => {
@@ -1100,20 +1136,28 @@ impl<'p> Model<'p> {
                     for (c, b) in branches {
                         if self.cond(c)? {
                             taken = true;
-                            if let Flow::Return(v) = self.block(b)? {
-                                self.early_returns += 1;
-                                self.classes.insert("return-from-inside-branch");
-                                return Ok(Flow::Return(v));
+                            match self.block(b)? {
+                                Flow::Return(v) => {
+                                    self.early_returns += 1;
+                                    self.classes.insert("return-from-inside-branch");
+                                    return Ok(Flow::Return(v));
+                                }
+                                Flow::Break(id) => return Ok(Flow::Break(id)),
+                                Flow::Normal => {}
                             }
                             break;
                         }
                     }
                     if !taken {
                         if let Some(b) = els {
-                            if let Flow::Return(v) = self.block(b)? {
-                                self.early_returns += 1;
-                                self.classes.insert("return-from-inside-branch");
-                                return Ok(Flow::Return(v));
+                            match self.block(b)? {
+                                Flow::Return(v) => {
+                                    self.early_returns += 1;
+                                    self.classes.insert("return-from-inside-branch");
+                                    return Ok(Flow::Return(v));
+                                }
+                                Flow::Break(id) => return Ok(Flow::Break(id)),
+                                Flow::Normal => {}
                             }
                         }
                     }
@@ -1129,10 +1173,14 @@ impl<'p> Model<'p> {
                         self.loop_nest += 1;
                         let r = self.block(b);
                         self.loop_nest -= 1;
-                        if let Flow::Return(v) = r? {
-                            self.early_returns += 1;
-                            self.classes.insert("return-from-inside-while");
-                            return Ok(Flow::Return(v));
+                        match r? {
+                            Flow::Return(v) => {
+                                self.early_returns += 1;
+                                self.classes.insert("return-from-inside-while");
+                                return Ok(Flow::Return(v));
+                            }
+                            Flow::Break(id) => return Ok(Flow::Break(id)),
+                            Flow::Normal => {}
                         }
                     }
                     if iters >= 100 {
@@ -1156,6 +1204,7 @@ impl<'p> Model<'p> {
                         self.classes.insert("zero-iteration-loop");
                     }
                     let ran_any = !items.is_empty();
+                    let mut broke = false;
                     for (n, it) in items.into_iter().enumerate() {
                         self.step()?;
                         if n > 0 && self.eval(src)? != h {
@@ -1166,14 +1215,32 @@ impl<'p> Model<'p> {
                         self.loop_nest += 1;
                         let r = self.block(b);
                         self.loop_nest -= 1;
-                        if let Flow::Return(val) = r? {
-                            self.early_returns += 1;
-                            self.classes.insert("return-from-inside-for");
-                            return Ok(Flow::Return(val));
+                        match r? {
+                            Flow::Return(val) => {
+                                self.early_returns += 1;
+                                self.classes.insert("return-from-inside-for");
+                                return Ok(Flow::Return(val));
+                            }
+                            Flow::Break(id) => {
+                                self.classes.insert("for-in-left-by-goto-inside-a-function");
+                                // the label stands further down in the same statement list (right after the loop)
+                                match stmts[at..].iter().position(|x| matches!(x, Stmt::Label(l) if *l == id)) {
+                                    Some(pos) => {
+                                        at += pos + 1;
+                                        broke = true;
+                                        break;
+                                    }
+                                    None => return Ok(Flow::Break(id)),
+                                }
+                            }
+                            Flow::Normal => {}
                         }
                     }
                     // the loop line is bound once more when the items are used up: a source changed by the LAST
                     // iteration (e.g. an argument variable overwritten by a nested call) is the same open corner
+                    if broke {
+                        continue;
+                    }
                     if ran_any && self.eval(src)? != h {
                         return Err(Stop::Unconstrained("for-in source variable changed during iteration"));
                     }
@@ -1185,6 +1252,15 @@ impl<'p> Model<'p> {
                     }
                     self.call(*f, vals, out.as_deref())?;
                 }
+                Stmt::Break(id) => {
+                    if self.nested > 0 {
+                        // a function evaluated in condition position runs through the nested evaluator, where a jump is
+                        // not a documented way to go on: outside the statement
+                        return Err(Stop::Unconstrained("goto inside a function called in condition position"));
+                    }
+                    return Ok(Flow::Break(*id));
+                }
+                Stmt::Label(_) => {}
                 Stmt::Return(e) => {
                     let v = match e {
                         Some(e) => Some(self.eval(e)?),
@@ -1249,7 +1325,7 @@ impl<'p> Model<'p> {
         let main: &'p [Stmt] = &self.p.main;
         match self.block(main)? {
             Flow::Normal => Ok(()),
-            Flow::Return(_) => Ok(()),
+            Flow::Return(_) | Flow::Break(_) => Ok(()),
         }
     }
 }
